@@ -2,6 +2,7 @@
 //! Subcommands:
 //!   hist <in.hist> <out.trace>     execute histories, append each call's outcome
 mod hist;
+mod images;
 mod util;
 
 fn main() {
@@ -14,6 +15,7 @@ fn main() {
     std::panic::set_hook(Box::new(|_| {}));
     match args[1].as_str() {
         "hist" => hist::main(&args[2..]),
+        "images" => images::main(&args[2..]),
         other => {
             eprintln!("unknown subcommand {}", other);
             std::process::exit(2);
